@@ -84,6 +84,15 @@ def gen_names(rng, n, hostile=True, alphabet=None):
         if any(q == p or q.startswith(p + "/") or p.startswith(q + "/") for q in names):
             continue
         names.append(p)
+    # escaping twins: a name and the name an unescaped shell string would denote instead
+    # (`a\\b` read without escaping is `a\b`): both present, with different contents
+    if hostile and not alphabet and names and rng.chance(1, 3):
+        cands = [p for p in names if "\\" in p.split("/")[-1]]
+        if cands:
+            p = rng.pick(cands)
+            twin = p.replace("\\", "\\\\")
+            if twin not in names and not any(q.startswith(twin + "/") or twin.startswith(q + "/") for q in names) and len(twin.encode()) < 900:
+                names.append(twin)
     return names
 
 
